@@ -846,7 +846,8 @@ __yd_diff(dt_yd_t d1, dt_yd_t d2)
 		 * of D2's year or, for anniversaries in Jan/Feb, last year's */
 		tgty--;
 		tgtd += 365 + ((__leapp(d2.y) && d2.d >= 60) ||
-			       (d1.d < 60 && __leapp(d2.y - 1)));
+			       ((d1.d < 60 || (d1.d == 60 && __leapp(d1.y))) &&
+				__leapp(d2.y - 1)));
 	}
 
 	/* fill in the results */
